@@ -25,10 +25,10 @@ IsArithChar(st, c) == IF c \in {"+", "-"} THEN st.bf \/ st.aw
                       ELSE IF c \in {"*", "/", "%"} THEN (st.bf \/ st.aw) /\ ~st.ao /\ ~st.aop
                       ELSE FALSE
 
-(* s.split(|c| !c.is_ascii_alphanumeric()): pieces between non-alphanumeric characters (empty pieces included) *)
+(* s.split(|c| !c.is_ascii_alphanumeric() && c != '_'): pieces between characters that cannot stand in a name (empty pieces included) *)
 RECURSIVE Pieces(_, _)
 Pieces(s, cur) == IF s = <<>> THEN <<cur>>
-                  ELSE IF IsAlnum(s[1]) THEN Pieces(Tail(s), Append(cur, s[1]))
+                  ELSE IF IsAlnum(s[1]) \/ s[1] = "_" THEN Pieces(Tail(s), Append(cur, s[1]))
                   ELSE <<cur>> \o Pieces(Tail(s), <<>>)
 IsInt(p) == AllDigits(p) /\ Len(p) <= 18
 LooksLikeExpression(s) == \A i \in 1 .. Len(Pieces(s, <<>>)) :
